@@ -123,6 +123,15 @@ class Calculation(UnaryOperation):
         # Docstring inherited.
         from ._projection import Projection
 
+        if self.tag in current.target.columns:
+            # The new column's tag was dropped by the current operation (a
+            # projection) but still exists upstream of it.
+            return UnaryCommutator(
+                first=None,
+                second=current.operation,
+                done=False,
+                messages=(f"{current.target} already has a column {self.tag}",),
+            )
         if not self.columns_required <= current.target.columns:
             return UnaryCommutator(
                 first=None,
